@@ -39,6 +39,14 @@ pub fn run_space(
         crate::report::case_begin(&format!("build space={} ({}) case={} input_len={} input_head_hex={} opts={:?}", space_idx, space.name, i, input.len(), crate::util::hex(&input[..input.len().min(48)]), case.opts));
         let out = subject::build(&input, &case.opts);
         crate::report::case_end();
+        {
+            let o = &case.opts;
+            let setters = [o.mode.is_some(), o.ecl.is_some(), o.version.is_some(), o.mask.is_some()].iter().filter(|&&x| x).count() as u64;
+            col.builder_transitions.fetch_add(setters + 1, Ordering::Relaxed);
+            col.builder_traces.fetch_add(1, Ordering::Relaxed);
+            let key = crate::util::fnv(format!("{:?}", o).as_bytes());
+            col.builder_states.lock().unwrap().insert(key);
+        }
         let mut findings = core::check_outcome(&out, &input, &case.opts);
         let digest = match &out {
             Outcome::Ok(q) => {
